@@ -14,7 +14,8 @@ Extracted (regex over the source text, constants resolved through XalanUnicode.h
     whether flushBuffer() precedes the direct write is emitted as bulkFlushUTF8 / bulkFlushUTF16; flushBuffer() itself;
     XalanOtherEncodingWriter::write(const XalanDOMChar*, size_type) must be the unit-by-unit loop (no bulk path);
     XalanOutputStream::write(const XalanDOMChar*, size_type): flush when the run does not fit, direct write only with an
-    empty buffer (bulkFlushStream)
+    empty buffer (bulkFlushStream); XalanOutputStream::flushBuffer(bool) token by token, its hold-back condition term
+    by term (streamHoldBack), isLeadingSurrogate (isLeadUnit)
   * FormatterListener.cpp s_piTarget / s_piData (the raw-text marker PI); XalanXMLSerializerBase::processingInstruction /
     characters / cdata token by token: whether m_nextIsRaw is cleared when it is honoured (rawResetCharacters / rawResetCData)
   * XalanTranscodingServices::getMaximumCharacterValue(encoding): the chain of exact name comparisons -> maxCharTable,
@@ -196,8 +197,7 @@ def main():
     if not re.search(r"flushBuffer\s*\(\s*\)\s*\{\s*m_writer\.write\s*\(\s*m_buffer\s*,\s*0\s*,\s*m_bufferPosition\s*-\s*m_buffer\s*\)\s*;\s*"
                      r"m_bufferPosition\s*=\s*m_buffer\s*;\s*m_bufferRemaining\s*=\s*kBufferSize\s*;\s*\}", oth):
         die("XalanOtherEncodingWriter::flushBuffer has an unexpected form")
-    # XalanOutputStream::write(const XalanDOMChar*, size_type): flush when the run does not fit; the direct write only
-    # with an empty buffer
+    # XalanOutputStream::write(const XalanDOMChar*, size_type) and flushBuffer(bool), token by token
     m = re.search(r"XalanOutputStream::write\s*\(\s*const\s+XalanDOMChar\s*\*\s*theBuffer\s*,\s*size_type\s+theBufferLength\s*\)\s*\{(.*?)\n\}\n", xos, re.S)
     if not m:
         die("XalanOutputStream::write(const XalanDOMChar*, size_type) not found")
@@ -212,8 +212,37 @@ def main():
     # ordered iff the direct write happens only with an empty buffer (the guard); the flush in front makes the buffer
     # empty (up to a held-back surrogate half, which then takes the buffered path)
     bulk_flush["stream"] = mm.group(2) is not None
-    if mm.group(1) is None and mm.group(2) is None:
-        bulk_flush["stream"] = False
+    stream_flush_first = mm.group(1) is not None
+    if not stream_flush_first:
+        die("XalanOutputStream::write: the flush of a buffer that cannot take the run is missing")
+    m = re.search(r"XalanOutputStream::flushBuffer\s*\(\s*bool\s+fHoldBackSurrogate\s*\)\s*\{(.*?)\n\}\n", xos, re.S)
+    if not m:
+        die("XalanOutputStream::flushBuffer(bool) not found")
+    b = re.sub(r"\s+", " ", m.group(1)).strip()
+    mm = re.fullmatch(r"if \(m_buffer\.empty\(\) == false\) \{ assert\(size_type\(m_buffer\.size\(\)\) == m_buffer\.size\(\)\); "
+                      r"const XalanDOMChar theLast = m_buffer\.back\(\); const bool fHoldBack = (.*?); "
+                      r"const size_type theLength = size_type\(m_buffer\.size\(\)\) - \(fHoldBack == true \? 1 : 0\); "
+                      r"\{ CollectionClearGuard<BufferType> theGuard\(m_buffer\); if \(theLength != 0\) \{ doWrite\(&\*m_buffer\.begin\(\), theLength\); \} \} "
+                      r"if \(fHoldBack == true\) \{ m_buffer\.push_back\(theLast\); \} \}", b)
+    if not mm:
+        die("XalanOutputStream::flushBuffer(bool) has an unexpected form: " + b[:500])
+    atoms = [a.strip() for a in mm.group(1).split("&&")]
+    ATOM = {"fHoldBackSurrogate == true": "hold", "m_writeAsUTF16 == false": "!asUTF16", "isLeadingSurrogate(theLast) == true": "isLeadUnit last"}
+    hold_terms = []
+    for a in atoms:
+        if a in ATOM:
+            hold_terms.append(ATOM[a])
+            continue
+        m2 = re.fullmatch(r"m_buffer\.size\(\) (<=|<|>=|>|==|!=) m_bufferSize", a)
+        if m2:
+            hold_terms.append("decide (bufLen %s cap)" % {"<=": "≤", "<": "<", ">=": "≥", ">": ">", "==": "=", "!=": "≠"}[m2.group(1)])
+            continue
+        die("XalanOutputStream::flushBuffer(bool): unknown term in the hold-back condition: " + a)
+    xos_hpp = strip_comments(read("PlatformSupport/XalanOutputStream.hpp"))
+    m2 = re.search(r"isLeadingSurrogate\s*\(\s*XalanDOMChar\s+theChar\s*\)\s*\{\s*return\s+theChar\s*>=\s*(0x[0-9A-Fa-f]+)u?\s*&&\s*theChar\s*<=\s*(0x[0-9A-Fa-f]+)u?\s*;", xos_hpp)
+    if not m2:
+        die("XalanOutputStream::isLeadingSurrogate has an unexpected form")
+    lead_lo, lead_hi = int(m2.group(1), 16), int(m2.group(2), 16)
 
     # XalanOutputStream::canTranscodeTo: which transcoder object answers?  (the object that transcodes the document:
     # a stateful converter loses its shift state; or a second one made for the purpose)
@@ -437,6 +466,10 @@ def main():
     L.append("def bulkFlushUTF16 : Bool := %s" % ("true" if bulk_flush["utf16"] else "false"))
     L.append("/-- `XalanOutputStream::write(const XalanDOMChar*, n)` writes a long run directly only when its buffer is empty -/")
     L.append("def bulkFlushStream : Bool := %s" % ("true" if bulk_flush["stream"] else "false"))
+    L.append("/-- `XalanOutputStream::isLeadingSurrogate` -/")
+    L.append("def isLeadUnit (u : Nat) : Bool := decide (%d ≤ u) && decide (u ≤ %d)" % (lead_lo, lead_hi))
+    L.append("/-- `fHoldBack` of `XalanOutputStream::flushBuffer(bool)`, term by term as written -/")
+    L.append("def streamHoldBack (hold asUTF16 : Bool) (last bufLen cap : Nat) : Bool := %s" % " && ".join(hold_terms))
     L.append("/-- the marker PI (`FormatterListener::s_piTarget / s_piData`) that makes the next text node unescaped -/")
     L.append("def rawMarkerTarget : List Nat := %s" % lst(marker_target))
     L.append("def rawMarkerData : List Nat := %s" % lst(marker_data))
